@@ -860,6 +860,57 @@ Lemma http_boundary : forall a,
 Proof. intro a. repeat split. Qed.
 
 (* ------------------------------------------------------------------ *)
+(* 5a. decodeMTP: the decoded view of a status body                     *)
+(* ------------------------------------------------------------------ *)
+
+Lemma all_some_map : forall ss, all_some (map Some ss) = Some ss.
+Proof. induction ss as [|a ss IH]; simpl; [reflexivity|]. rewrite IH. reflexivity. Qed.
+
+Lemma all_some_spec : forall l ss, all_some l = Some ss <-> l = map Some ss.
+Proof.
+  intros l ss. split.
+  - revert ss. induction l as [|[x|] l IH]; intros ss H; simpl in H.
+    + inversion H. reflexivity.
+    + destruct (all_some l) as [t|]; [|discriminate]. inversion H; subst. simpl.
+      f_equal. apply IH. reflexivity.
+    + discriminate.
+  - intros ->. apply all_some_map.
+Qed.
+
+(* the proof the validator works with is the body's proof AS WRITTEN: at most 240
+   siblings, none null, and existence flag, siblings and auxiliary node taken over
+   independently of each other (in particular a node_aux never changes the flag) *)
+Theorem decode_mtp_spec : forall m rp,
+  decode_mtp (Some m) = Ok rp <->
+  (List.length (w_sibs m) <= 240)%nat /\
+  w_sibs m = map Some (r_sibs rp) /\ r_ex rp = w_ex m /\ r_aux rp = w_aux m.
+Proof.
+  intros m rp. unfold decode_mtp, max_mtp_siblings.
+  destruct (Nat.ltb 240 (List.length (w_sibs m))) eqn:Hl.
+  - apply Nat.ltb_lt in Hl. split; [discriminate|]. intros (H & _). lia.
+  - apply Nat.ltb_ge in Hl. destruct (all_some (w_sibs m)) as [ss|] eqn:Ha.
+    + apply all_some_spec in Ha. split.
+      * intro H. inversion H; subst. simpl. auto.
+      * intros (_ & Hs & He & Hx). destruct rp as [e ss' ax]. simpl in *. subst.
+        assert (Hss : Some ss = Some ss').
+        { rewrite <- (all_some_map ss), <- (all_some_map ss'). f_equal. congruence. }
+        inversion Hss. reflexivity.
+    + split; [discriminate|]. intros (_ & Hs & _).
+      assert (Hx : all_some (w_sibs m) = Some (r_sibs rp)) by (apply all_some_spec; exact Hs).
+      congruence.
+Qed.
+
+Lemma decode_mtp_absent : decode_mtp None = Ok (mkrp false [] None).
+Proof. reflexivity. Qed.
+
+Lemma decode_mtp_total : forall w, (exists rp, decode_mtp w = Ok rp) \/ exists t, decode_mtp w = Err t.
+Proof.
+  intros [m|]; simpl; eauto. unfold decode_mtp.
+  destruct (Nat.ltb max_mtp_siblings (List.length (w_sibs m))); eauto.
+  destruct (all_some (w_sibs m)); eauto.
+Qed.
+
+(* ------------------------------------------------------------------ *)
 (* 5b. the direct resolver inside ValidateCredentialStatus              *)
 (* ------------------------------------------------------------------ *)
 
@@ -1096,6 +1147,15 @@ Example ex_hex :
   hex_decode "00" = HBad /\ hex_decode "" = HBad /\
   hex_decode "0g00000000000000000000000000000000000000000000000000000000000000" = HBad /\
   hexf_of_member None = HNil.
+Proof. vm_compute. repeat split. Qed.
+
+Example ex_decode :
+  decode_mtp (Some (mkwm true [Some 1; Some 0] (Some (Some 5, Some 0))))
+    = Ok (mkrp true [1; 0] (Some (Some 5, Some 0))) /\
+  decode_mtp (Some (mkwm false [] None)) = Ok (mkrp false [] None) /\
+  decode_mtp (Some (mkwm false [Some 1; None] None)) = Err EMtpNull /\
+  decode_mtp (Some (mkwm false (repeat (Some 0) 241) None)) = Err EMtpMany /\
+  parse_status_body None = None.
 Proof. vm_compute. repeat split. Qed.
 
 End Examples.
